@@ -189,11 +189,11 @@ class Result(NamedItem):
 
         equivalent_alloc = sc.odict()
         for prog in prop_coverage.keys():
-            uc = self.model.progset.programs[prog].unit_cost.interpolate(year)
+            uc = self.model.progset.programs[prog].unit_cost.interpolate(year, method="previous")
             pc = sc.dcp(prop_coverage[prog])
 
             if self.model.progset.programs[prog].saturation.has_data:
-                sat = self.model.progset.programs[prog].saturation.interpolate(year)
+                sat = self.model.progset.programs[prog].saturation.interpolate(year, method="previous")
 
                 # If prop_covered is higher than the saturation then set it to nan (without the error that would happen from np.log)
                 pc[pc >= sat] = np.nan
@@ -203,7 +203,7 @@ class Result(NamedItem):
 
             # Calculating the program coverage, capacity constraint is applied first, then saturation, so it needs to happen second when reversing the calculation
             if self.model.progset.programs[prog].capacity_constraint.has_data:
-                cap = self.model.progset.programs[prog].capacity_constraint.interpolate(year)
+                cap = self.model.progset.programs[prog].capacity_constraint.interpolate(year, method="previous")
                 # If prop_covered is higher than the capacity constraint then set it to nan as it wouldn't be possible to reach that coverage
                 pc[(pc * num_eligible[prog] - cap) > 1e-6] = np.nan
 
@@ -212,7 +212,7 @@ class Result(NamedItem):
 
             equivalent_alloc[prog] = uc * num_costed_coverage
 
-            if "/year" in self.model.progset.programs[prog].coverage.units:  # it's a one-off program, need to multiply by the time step to annualize spending
+            if self.model.progset.programs[prog].is_one_off:  # it's a one-off program, so the number covered is per timestep and the spending needs to be annualized
                 equivalent_alloc[prog] /= self.dt
 
         return equivalent_alloc
